@@ -28,6 +28,7 @@ type OpRec struct {
 	Proc      int
 	Part      string
 	T0, T1    time.Duration
+	Done      bool          // the operation has returned (T1 is meaningful)
 	Skew      time.Duration // clock offset of the acting process
 	offNode   func()
 	Calls     int // seam calls made inside this operation (metastore, KMS, AEAD, secret factory)
